@@ -860,6 +860,16 @@ Section Sound.
         destruct B as [B|(B1 & g0 & B2 & B3)]; [left; exact B|right; split; [exact B1|exists g0; split; assumption]].
   Qed.
 
+  Lemma clear_member_nil fs : forall ss k f oi s, nth_error fs k = Some f -> f_shape f = Member oi ->
+    nth_error (clear_oneof fs ss oi) k = Some s -> s = VNil.
+  Proof.
+    induction fs as [|g fs IH]; intros ss k f oi s Hf Hm Hs; [destruct k; discriminate|].
+    destruct ss as [|x ss]; cbn [clear_oneof] in Hs; [destruct k; discriminate|].
+    destruct k as [|k]; cbn [nth_error] in *.
+    - injection Hf as ->. rewrite Hm, Nat.eqb_refl in Hs. congruence.
+    - eapply IH; eauto.
+  Qed.
+
   (* [oneof_reach] along a list of fields *)
   Lemma reach_app r a : forall b i oi acc,
     oneof_reach o ann r (a ++ b) i oi acc = oneof_reach o ann r b (i + length a) oi (oneof_reach o ann r a i oi acc).
@@ -1118,4 +1128,144 @@ Section Sound.
   Proof. intros Es. unfold sslot, rg_slot. rewrite Es. destruct (f_ty f); split; auto. Qed.
   Lemma member_nil_cslot (rec : srec_t) r q f fa oi : f_shape f = Member oi -> cslot o ann rec r q f fa VNil.
   Proof. intros Es. unfold cslot. rewrite Es. destruct (f_ty f); left; reflexivity. Qed.
+
+  Section Fields.
+    Variable child : child_t.
+    Variable depth : nat.
+    Variable md : msgdesc.
+    Variable ma : mannot.
+    Variable q : N.
+    Variable st0 : nat -> option nat.
+    Hypothesis Hc1 : child_sound child (S depth).
+    Hypothesis Hc2 : child_sound child (S (S depth)).
+    Hypothesis Hd : (depth <= 10)%nat.
+    Hypothesis Hlenfa : length (a_fields ma) = length (m_fields md).
+    Hypothesis Hfacts : forall i f fa, nth_error (m_fields md) i = Some f -> nth_error (a_fields ma) i = Some fa ->
+      field_facts f fa /\ (forall j, f_shape f = Member j -> (j < m_oneofs md)%nat).
+    Let r' := (12 - S depth)%nat.
+
+    Definition finv (pre : list field) (slots : list val) : Prop :=
+      length slots = length (m_fields md) /\
+      (forall i f fa s, nth_error (m_fields md) i = Some f -> nth_error (a_fields ma) i = Some fa -> nth_error slots i = Some s ->
+         ((i < length pre)%nat -> sslot o sch ann (SD r') r' (q + 1) f fa s) /\
+         ((length pre <= i)%nat -> cslot o ann (SD r') r' q f fa s)) /\
+      (forall oi, (oi < m_oneofs md)%nat ->
+         (oneof_count (m_fields md) slots oi <= 1)%nat /\
+         In (oneof_state (m_fields md) slots 0 oi) (oneof_reach o ann r' pre 0 oi [st0 oi])).
+
+    Lemma reach_snoc pre f oi acc :
+      oneof_reach o ann r' (pre ++ [f]) 0 oi acc =
+      match f_shape f with
+      | Member j =>
+        if Nat.eqb j oi then
+          let out := if succ_of r' f then Some (length pre) else None in
+          if forced o f then [out] else out :: oneof_reach o ann r' pre 0 oi acc
+        else oneof_reach o ann r' pre 0 oi acc
+      | _ => oneof_reach o ann r' pre 0 oi acc
+      end.
+    Proof.
+      rewrite reach_app. cbn [oneof_reach Nat.add]. unfold succ_of.
+      destruct (f_shape f); reflexivity.
+    Qed.
+
+    Lemma set_nth_nth_error {A} (l : list A) : forall i k x, nth_error (set_nth l i x) k =
+      if Nat.eqb k i then (match nth_error l k with Some _ => Some x | None => None end) else nth_error l k.
+    Proof.
+      induction l as [|a l IH]; intros i k x; cbn [set_nth].
+      - destruct k; destruct (Nat.eqb _ i); reflexivity.
+      - destruct i as [|i]; destruct k as [|k]; cbn [set_nth nth_error Nat.eqb]; try reflexivity. apply IH.
+    Qed.
+
+    (* the field is left alone *)
+    Lemma finv_skip pre f fa slots : nth_error (m_fields md) (length pre) = Some f ->
+      nth_error (a_fields ma) (length pre) = Some fa -> forced o f = false ->
+      finv pre slots -> finv (pre ++ [f]) slots.
+    Proof.
+      intros Hf Hfa Hfo (L & Hsl & Hone). split; [exact L|]. split.
+      - intros i g ga s Hg Hga Hs. rewrite app_length. cbn [length]. destruct (Hsl i g ga s Hg Hga Hs) as [A B]. split.
+        + intros Hi. destruct (Nat.eq_dec i (length pre)) as [->|Hne]; [|apply A; lia].
+          rewrite Hf in Hg. injection Hg as <-. rewrite Hfa in Hga. injection Hga as <-. apply cslot_skip; [exact Hfo|apply B; lia].
+        + intros Hi. apply B. lia.
+      - intros oi Hoi. destruct (Hone oi Hoi) as [C R]. split; [exact C|]. rewrite reach_snoc.
+        destruct (f_shape f); try exact R. destruct (Nat.eqb oneof oi); [|exact R]. rewrite Hfo. right. exact R.
+    Qed.
+
+    (* a field that is not a oneof member gets a new slot *)
+    Lemma finv_set pre f fa slots v : nth_error (m_fields md) (length pre) = Some f ->
+      nth_error (a_fields ma) (length pre) = Some fa -> (forall j, f_shape f <> Member j) ->
+      sslot o sch ann (SD r') r' (q + 1) f fa v ->
+      finv pre slots -> finv (pre ++ [f]) (set_nth slots (length pre) v).
+    Proof.
+      intros Hf Hfa Hnm Hv (L & Hsl & Hone). split; [rewrite RoundTrip.set_nth_length; exact L|]. split.
+      - intros i g ga s Hg Hga Hs. rewrite app_length. cbn [length]. rewrite set_nth_nth_error in Hs.
+        destruct (Nat.eqb_spec i (length pre)) as [->|Hne].
+        + rewrite Hf in Hg. injection Hg as <-. rewrite Hfa in Hga. injection Hga as <-.
+          destruct (nth_error slots (length pre)); [|discriminate]. injection Hs as <-. split; [intros _; exact Hv|lia].
+        + destruct (Hsl i g ga s Hg Hga Hs) as [A B]. split; [intros Hi; apply A; lia|intros Hi; apply B; lia].
+      - intros oi Hoi. destruct (Hone oi Hoi) as [C R].
+        assert (Hnm' : not_member_of f oi) by (intros j Hj; exfalso; eapply Hnm; exact Hj).
+        split.
+        + pose proof (count_set_le (m_fields md) slots (length pre) f v oi Hf) as H.
+          unfold oo_term in H. destruct (f_shape f) eqn:Es; try lia. exfalso. eapply Hnm. reflexivity.
+        + rewrite (state_set_nonmember _ _ _ _ _ _ _ Hf Hnm'). rewrite reach_snoc.
+          destruct (f_shape f) eqn:Es; try exact R. exfalso. eapply Hnm. reflexivity.
+    Qed.
+
+    (* slots other than the member just written, after the oneof was cleared *)
+    Lemma cleared_slots pre slots oi0 : finv pre slots ->
+      forall i g ga s', nth_error (m_fields md) i = Some g -> nth_error (a_fields ma) i = Some ga ->
+        nth_error (clear_oneof (m_fields md) slots oi0) i = Some s' ->
+        ((i < length pre)%nat -> sslot o sch ann (SD r') r' (q + 1) g ga s') /\
+        ((length pre <= i)%nat -> cslot o ann (SD r') r' q g ga s').
+    Proof.
+      intros (L & Hsl & _) i g ga s' Hg Hga Hs. destruct (clear_nth _ _ _ _ _ Hs) as (s & Hs0 & [->|(-> & g0 & Hg0 & Hm)]).
+      - apply (Hsl i g ga s Hg Hga Hs0).
+      - rewrite Hg in Hg0. injection Hg0 as <-. split; intros _; [eapply member_nil_sslot|eapply member_nil_cslot]; exact Hm.
+    Qed.
+
+    Lemma finv_member_some pre f fa slots oi0 e : nth_error (m_fields md) (length pre) = Some f ->
+      nth_error (a_fields ma) (length pre) = Some fa -> f_shape f = Member oi0 ->
+      sslot o sch ann (SD r') r' (q + 1) f fa (VSome e) -> succ_of r' f = true ->
+      finv pre slots -> finv (pre ++ [f]) (set_nth (clear_oneof (m_fields md) slots oi0) (length pre) (VSome e)).
+    Proof.
+      intros Hf Hfa Hm Hv Hsucc Hinv. pose proof Hinv as (L & Hsl & Hone).
+      assert (Hidx : (length pre < length slots)%nat) by (rewrite L; apply nth_error_Some; congruence).
+      split; [rewrite RoundTrip.set_nth_length, clear_length; exact L|]. split.
+      - intros i g ga s Hg Hga Hs. rewrite app_length. cbn [length]. rewrite set_nth_nth_error in Hs.
+        destruct (Nat.eqb_spec i (length pre)) as [->|Hne].
+        + rewrite Hf in Hg. injection Hg as <-. rewrite Hfa in Hga. injection Hga as <-.
+          destruct (nth_error (clear_oneof (m_fields md) slots oi0) (length pre)); [|discriminate]. injection Hs as <-. split; [intros _; exact Hv|lia].
+        + destruct (cleared_slots pre slots oi0 Hinv i g ga s Hg Hga Hs) as [A B]. split; [intros Hi; apply A; lia|intros Hi; apply B; lia].
+      - intros oi Hoi. destruct (Hone oi Hoi) as [C R]. rewrite reach_snoc, Hm.
+        pose proof (count_set_le (m_fields md) (clear_oneof (m_fields md) slots oi0) (length pre) f (VSome e) oi Hf) as Hcnt.
+        unfold oo_term in Hcnt. rewrite Hm in Hcnt.
+        destruct (Nat.eqb_spec oi0 oi) as [->|Hne].
+        + rewrite count_clear_same in Hcnt. split; [lia|].
+          rewrite (state_set_member _ _ _ 0%nat f e oi Hf Hm); [|rewrite clear_length; exact Hidx|apply state_clear_same].
+          rewrite Hsucc. cbn [Nat.add]. destruct (forced o f); left; reflexivity.
+        + pose proof (count_clear_le (m_fields md) slots oi0 oi). split; [lia|].
+          rewrite (state_set_nonmember _ _ _ _ f); [|exact Hf|intros j Hj; rewrite Hm in Hj; injection Hj as <-; exact Hne].
+          rewrite state_clear_other by exact Hne. exact R.
+    Qed.
+
+    Lemma finv_member_none pre f fa slots oi0 : nth_error (m_fields md) (length pre) = Some f ->
+      nth_error (a_fields ma) (length pre) = Some fa -> f_shape f = Member oi0 -> succ_of r' f = false ->
+      finv pre slots -> finv (pre ++ [f]) (clear_oneof (m_fields md) slots oi0).
+    Proof.
+      intros Hf Hfa Hm Hsucc Hinv. pose proof Hinv as (L & Hsl & Hone).
+      split; [rewrite clear_length; exact L|]. split.
+      - intros i g ga s Hg Hga Hs. rewrite app_length. cbn [length].
+        destruct (cleared_slots pre slots oi0 Hinv i g ga s Hg Hga Hs) as [A B].
+        destruct (Nat.eq_dec i (length pre)) as [->|Hne].
+        + split; [intros _|lia]. rewrite Hf in Hg. injection Hg as <-.
+          destruct (clear_nth _ _ _ _ _ Hs) as (s0 & Hs0 & Hcase).
+          rewrite (clear_member_nil _ _ _ _ _ _ Hf Hm Hs).
+          eapply member_nil_sslot. exact Hm.
+        + split; [intros Hi; apply A; lia|intros Hi; apply B; lia].
+      - intros oi Hoi. destruct (Hone oi Hoi) as [C R]. rewrite reach_snoc, Hm.
+        destruct (Nat.eqb_spec oi0 oi) as [->|Hne].
+        + rewrite count_clear_same, state_clear_same. split; [lia|]. rewrite Hsucc. destruct (forced o f); left; reflexivity.
+        + pose proof (count_clear_le (m_fields md) slots oi0 oi). split; [lia|]. rewrite state_clear_other by exact Hne. exact R.
+    Qed.
+  End Fields.
 End Sound.
